@@ -36,6 +36,19 @@ def chainEnd (n : Nat) (tr : Array Cycle) (g : Nat) : Bool :=
   (List.range 3).any fun a => a + 1 ≤ g && (reqAt n tr (g - 1 - a)).isSome &&
     (List.range 3).any fun b => a + b + 2 ≤ g && (reqAt n tr (g - 2 - a - b)).isSome
 
+/-- how far back a run of requests, each fewer than 4 phases after the previous one, reaches from `g` -/
+def chainStart (n : Nat) (tr : Array Cycle) : Nat → Nat → Nat
+  | 0, g => g
+  | fuel + 1, g =>
+    match (List.range 3).find? (fun a => a + 1 ≤ g && (reqAt n tr (g - 1 - a)).isSome) with
+    | some a => chainStart n tr fuel (g - 1 - a)
+    | none => g
+
+/-- with the extended overlap check the pipeline resolves "was it actually sent" over the previous and the current
+controller cycle: the recorded finding then only concerns runs of overlapping requests that began before the previous cycle -/
+def longChain (n : Nat) (tr : Array Cycle) (g : Nat) : Bool :=
+  (reqAt n tr g).isSome && chainStart n tr (2 * n + 8) g < (g / n - 1) * n
+
 /-- pin slot at global slot index (slot g of cycle t is what was observed after cycle t) -/
 def csAt (n : Nat) (tr : Array Cycle) (g : Nat) : Bool :=
   match tr[g / n]? with
@@ -50,10 +63,11 @@ def caAt (n : Nat) (tr : Array Cycle) (g : Nat) : List Bool :=
   reason 1 = a command that had to be sent does not decode to the requested operation at its slot
   reason 2 = CS high in a slot that belongs to no command that had to be sent
   chain flag = a request within [g-3, g+3] ends a 3-chain (the recorded known-finding class) -/
-def check (n : Nat) (tr : Array Cycle) : Option (Nat × Nat × Bool) :=
+def check (n : Nat) (tr : Array Cycle) (ext : Bool := false) : Option (Nat × Nat × Bool) :=
   let total := tr.size * n
   let sent := (sentList n tr total).toArray
-  let near (g : Nat) : Bool := (List.range 7).any fun k => g + k ≥ 3 && chainEnd n tr (g + k - 3)
+  let near (g : Nat) : Bool := (List.range 7).any fun k => g + k ≥ 3 &&
+    (if ext then longChain n tr (g + k - 3) else chainEnd n tr (g + k - 3))
   let bad1 := (List.range total).find? fun g =>
     sent.getD g false && g + 4 ≤ total &&
       (JedecLpddr4.decode ((List.range 4).map fun k => csAt n tr (g + k)) ((List.range 4).map fun k => caAt n tr (g + k))
